@@ -62,14 +62,12 @@ impl ReceiverModel {
         let n = if quick { 2 } else { 3 };
         for k in 0..n {
             ev.push(Ev::Open(k));
-            for &len in if quick { &[0usize, 1, 16384][..] } else { &[0usize, 1, 7, 16384][..] } {
+            for &len in if quick { &[0usize, 16384][..] } else { &[0usize, 1, 7, 16384][..] } {
                 ev.push(Ev::Data(k, len, None, false));
             }
             ev.push(Ev::Data(k, 7, Some(5), false));
             ev.push(Ev::Data(k, 1, None, true));
-            if !quick {
-                ev.push(Ev::Data(k, 0, Some(255), false));
-            }
+            ev.push(Ev::Data(k, 0, Some(255), false));
             ev.push(Ev::PeerRst(k));
             ev.push(Ev::PollData(k));
             ev.push(Ev::ReleaseAll(k));
@@ -376,6 +374,59 @@ impl Model for ReceiverModel {
         };
         drain(t, w, &mut panics);
         t.drive(300);
+        // 1b. every stream of the history that is still open in the peer's direction and still read by the application:
+        //     the peer uses up the stream's window while the application reads without releasing, then everything is
+        //     released at once - the peer must see the stream's window back at the acknowledged initial size (octets of
+        //     earlier frames - padding, empty frames - that were never credited back show up here)
+        if t.goaway_sent().is_none() && t.conn_alive() {
+            for k in 0..w.streams.len() {
+                let (sid, usable) = {
+                    let s = &w.streams[k];
+                    (s.sid, s.opened && !s.peer_eos && !s.peer_rst && !s.orphaned)
+                };
+                if !usable || !t.rst_sent(sid).is_empty() || !t.accepted.iter().any(|a| a.sid == sid && a.body.is_some()) {
+                    continue;
+                }
+                let mut held = 0usize;
+                let mut rounds = 0;
+                loop {
+                    t.catch_up();
+                    let pv = peer_view(t);
+                    let n = pv.v0().min(pv.vs(sid)).min(16384);
+                    if n <= 0 || rounds > 8 || !t.conn_alive() {
+                        break;
+                    }
+                    t.peer_send(&wf::data(sid, &vec![0xdd; n as usize], false));
+                    t.drive(100);
+                    if let Some(b) = t.accepted.iter_mut().find(|a| a.sid == sid).and_then(|a| a.body.as_mut()) {
+                        loop {
+                            let flag1 = Flag::new(false);
+                            let wk1 = waker_of(&flag1);
+                            let mut cx1 = Context::from_waker(&wk1);
+                            match guarded(&mut panics, "poll_data", || b.poll_data(&mut cx1)) {
+                                Some(Poll::Ready(Some(Ok(d)))) => held += d.len(),
+                                _ => break,
+                            }
+                        }
+                    }
+                    rounds += 1;
+                }
+                t.catch_up();
+                let stream_exhausted = peer_view(t).vs(sid) == 0;
+                if let Some(b) = t.accepted.iter_mut().find(|a| a.sid == sid).and_then(|a| a.body.as_mut()) {
+                    let _ = guarded(&mut panics, "release_capacity", || b.flow_control().release_capacity(held));
+                }
+                t.drive(300);
+                t.catch_up();
+                if !panics.is_empty() || !t.conn_alive() || t.goaway_sent().is_some() || !t.rst_sent(sid).is_empty() {
+                    break;
+                }
+                let pv = peer_view(t);
+                if stream_exhausted && held > 0 && pv.vs(sid) != pv.acked_initial {
+                    v.push(("C03.stream-window-leaked".into(), if pv.vs(sid) < pv.acked_initial { "short".into() } else { "over".into() }, format!("stream {}: the peer used up the stream's window, the application read and released everything ({} octets); the peer now sees a stream window of {}, the acknowledged initial window is {}", sid, held, pv.vs(sid), pv.acked_initial)));
+                }
+            }
+        }
         // 2. a fresh carrier stream whose window is larger than the connection window, so that the peer can use the whole
         //    connection window in one go while the application reads but releases nothing (no threshold effects)
         if t.goaway_sent().is_some() {
